@@ -316,11 +316,8 @@ def gen_ports(rng, tier, escalate):
     cases = []
 
     def add(proto, spec, syntax="asa", sem=None):
-        c = {"proto": proto, "spec": spec, "syntax": syntax, "key": None, "expect": None}
-        if sem is not None:
-            c["key"] = [sem[0], sem[1], sem[2]]
-            c["expect"] = _expect(tabs[proto], *sem)
-        cases.append(c)
+        # key = the structured reading (operator, argument, second argument) when the harness knows it
+        cases.append({"proto": proto, "spec": spec, "syntax": syntax, "key": None if sem is None else [sem[0], sem[1], sem[2]]})
 
     for proto in ("tcp", "udp"):
         for op in OPS:
@@ -410,8 +407,26 @@ def _runs_lit(rs):
     return common.listlit(_zz(r) for r in rs)
 
 
+_TABS = {}
+
+
+def _expectation(c):
+    """None = no expectation (unstructured case, or a name that is not a service of the CURRENT table: unknown names are
+    outside the property's quantifier); otherwise what the spec denotes, computed from the repository's current tables"""
+    k = c.get("key")
+    if not k or c["syntax"] != "asa" or c["proto"] not in ("tcp", "udp"):
+        return None
+    if not _TABS:
+        _TABS.update(gen_c20.tables())
+    tab = _TABS[c["proto"]]
+    for x in (k[1], k[2]):
+        if isinstance(x, str) and x not in tab:
+            return None
+    return _expect(tab, k[0], k[1], k[2])
+
+
 def lit_ports(c, o):
-    e = c.get("expect")
+    e = _expectation(c)
     exp = "None" if e is None else ("(Some None)" if e == "raise" else "(Some (Some %s))" % _runs_lit(e))
     return "(%s, %s, %s, %s, %s)" % (_s(c["proto"]), _s(c["spec"]), _s(c["syntax"]), common.optlit(o, _runs_lit), exp)
 
@@ -419,12 +434,12 @@ def lit_ports(c, o):
 def nontrivial_ports(c, o):
     if o is None or c.get("key") is None:
         return None
-    return (c["proto"],) + tuple(c["key"])
+    return (c["proto"],) + tuple(str(x) for x in c["key"])
 
 
 def describe_ports(c, o):
     return {"protocol": c["proto"], "port_spec": c["spec"], "syntax": c["syntax"],
-            "impl_port_list_as_runs": "raised" if o is None else o[:6], "denoted_ports_as_runs": c.get("expect")}
+            "impl_port_list_as_runs": "raised" if o is None else o[:6], "denoted_ports_as_runs": _expectation(c)}
 
 
 PRE = ("From Coq Require Import NArith ZArith List. Import ListNotations. "
